@@ -14,7 +14,10 @@ import (
 	"sync/atomic"
 	"testing"
 
+	"github.com/vulcand/oxy/v2/buffer"
 	"github.com/vulcand/oxy/v2/forward"
+	"github.com/vulcand/oxy/v2/roundrobin"
+	"github.com/vulcand/oxy/v2/stream"
 	"github.com/vulcand/oxy/v2/verifharness/sim"
 	"github.com/vulcand/oxy/v2/verifharness/vstat"
 	"pgregory.net/rapid"
@@ -85,6 +88,20 @@ var fwdNames = []string{"X-Forwarded-Proto", "X-Forwarded-Host", "X-Forwarded-Po
 var hopNames = []string{"Keep-Alive", "Proxy-Authorization", "Proxy-Connection", "Te", "Upgrade", "Proxy-Authenticate"}
 
 type hdr struct{ k, v string }
+
+// frontLayer: the oxy middleware the forwarder sits behind in the current case ("" = none);
+// presetHeader: the response writer carries a Cache-Control header before the exchange starts.
+var (
+	frontLayer   string
+	presetHeader bool
+)
+
+type fmtLogger struct{}
+
+func (fmtLogger) Debug(f string, a ...interface{}) { _ = fmt.Sprintf(f, a...) }
+func (fmtLogger) Info(f string, a ...interface{})  { _ = fmt.Sprintf(f, a...) }
+func (fmtLogger) Warn(f string, a ...interface{})  { _ = fmt.Sprintf(f, a...) }
+func (fmtLogger) Error(f string, a ...interface{}) { _ = fmt.Sprintf(f, a...) }
 
 // otherForwarders: a second forwarder with the opposite host pass-through setting is created
 // right after the one under test (set per case by the generator).
@@ -164,6 +181,8 @@ func genSpec(t *rapid.T) *spec {
 	s.tls = rapid.Bool().Draw(t, "tls")
 	s.passHost = rapid.Bool().Draw(t, "passHost")
 	otherForwarders = rapid.IntRange(0, 2).Draw(t, "otherForwarderInProcess") == 0
+	frontLayer = rapid.SampledFrom([]string{"", "", "", "stream-verbose", "buffer", "buffer-verbose", "roundrobin-verbose"}).Draw(t, "frontLayer")
+	presetHeader = rapid.IntRange(0, 3).Draw(t, "presetResponseHeader") == 0
 	s.tlsBackend = rapid.IntRange(0, 3).Draw(t, "tlsBackend") == 0
 	if s.method == "POST" || s.method == "PUT" {
 		s.body = rapid.StringMatching(`[a-z]{0,20}`).Draw(t, "body")
@@ -280,7 +299,44 @@ func check(fatalf func(string, ...any), s *spec) (discarded bool) {
 		_ = other
 	}
 	rec := sim.NewRecorder()
-	fwd.ServeHTTP(rec, req)
+	// the forwarder is documented to sit behind other oxy middlewares; some of them, in their
+	// verbose mode, look at the request before handing it on
+	var h http.Handler = fwd
+	switch frontLayer {
+	case "stream-verbose":
+		st, err := stream.New(fwd, stream.Verbose(true), stream.Logger(fmtLogger{}))
+		if err != nil {
+			fatalf("stream.New: %v", err)
+			return
+		}
+		h = st
+	case "buffer", "buffer-verbose":
+		bopts := []buffer.Option{}
+		if frontLayer == "buffer-verbose" {
+			bopts = append(bopts, buffer.Verbose(true), buffer.Logger(fmtLogger{}))
+		}
+		bf, err := buffer.New(fwd, bopts...)
+		if err != nil {
+			fatalf("buffer.New: %v", err)
+			return
+		}
+		h = bf
+	case "roundrobin-verbose":
+		rr, err := roundrobin.New(fwd, roundrobin.Verbose(true), roundrobin.Logger(fmtLogger{}))
+		if err != nil {
+			fatalf("roundrobin.New: %v", err)
+			return
+		}
+		if err := rr.UpsertServer(req.URL); err != nil {
+			fatalf("UpsertServer: %v", err)
+			return
+		}
+		h = rr
+	}
+	if presetHeader { // an outer handler (CORS, caching policy) has put a header on the response already
+		rec.Header().Add("Cache-Control", "private")
+	}
+	h.ServeHTTP(rec, req)
 	reqs := be.Requests()
 	bad := func(f string, a ...any) {
 		fatalf("%s\nclient request:\n%s\npeer=%s tls=%v passHost=%v httpsBackend=%v", fmt.Sprintf(f, a...), strings.ReplaceAll(raw, "\r\n", "\n"), s.peer, s.tls, s.passHost, s.tlsBackend)
@@ -468,6 +524,9 @@ func check(fatalf func(string, ...any), s *spec) (discarded bool) {
 			continue
 		}
 		wantResp.Add(h.k, h.v)
+	}
+	if presetHeader {
+		wantResp["Cache-Control"] = append([]string{"private"}, wantResp["Cache-Control"]...)
 	}
 	for k, vs := range wantResp {
 		if g := sent.Values(k); strings.Join(g, "\x00") != strings.Join(vs, "\x00") {
